@@ -59,7 +59,7 @@ RULE = (
     "of a history on fresh real objects judged against the model (= traces_validated_against_impl); non-trivial = the history opened "
     ">=1 source subscription and delivered >=1 notification to a subscriber; distinct = (configuration, history)"
 )
-BUDGET = {"quick": 180.0, "thorough": 2400.0}
+BUDGET = {"quick": 300.0, "thorough": 2400.0}
 
 BASES = (0, 100, 1000)
 INIT = False  # publish_value's initial value: falsy on purpose, distinct from None and 0 under R2
